@@ -8,4 +8,5 @@ CONSTANTS
   Mode <- M1
   Timed = {t2, t3}
   Kind = "qrw"
+  PeekUnlock = FALSE
 INVARIANTS WriterExclusive StateMatchesHolders AdmittedAfterLastUnlock FailedIsNoOp
